@@ -16,8 +16,11 @@ Proved for all inputs (no size bound), about the line-by-line mirror of `explain
   sub-list of the input and unsatisfiable after an accepted certificate with the empty clause.
 * `propagate_fuel_suffices` — the fuel `NbVars + 2` of the fix-point never runs out.
 * `checkChan_eq` — `UnsatChan` = `Unsat` on the certificate cut after its first empty clause.
-* `checker_complete_up_statement` (a `Prop`; proved in `GS/Props/C08_Complete.lean`) with the witnesses
-  `complete_needs_no_repeat`, `complete_needs_no_repeat_line`, `complete_needs_no_compl`.
+* `scanGo_eq_scan` — the (repaired) literal scan of `(*Problem).unsat` is `GS.scan`.
+* `checker_complete_up_statement` (a `Prop`; proved in `GS/Props/C08_Complete.lean`) with the witness
+  `complete_needs_no_compl`; `repeat_now_accepted`, `repeat_line_now_accepted`,
+  `repeat_unit_now_accepted`, `repeat_subset_now_accepted` (inputs with repeated literals that the code before the repair of the
+  scan rejected: the former witnesses `complete_needs_no_repeat`, `complete_needs_no_repeat_line`).
 
 Hypotheses (`Pb.Ok`, established by `mkPb_ok` for parsed problems): `NbClauses = len(Clauses)`
 (ParseCNF trusts the header: with `p cnf 2 3` followed by 2 clauses the learned clauses stay in
@@ -29,8 +32,39 @@ open GS
 
 /-! ## 1. the Go clause scan versus `GS.scan` -/
 
+/-- From the states the Go loop can be in (`unbound` is 0 or 1 while it runs) the Go scan *is*
+    `GS.scan`: the first unbound literal is remembered, a repetition of it is skipped, any other
+    unbound literal ends the scan with `.many`.  (Before the repair of `problem.go` a repetition
+    of the first unbound literal also ended the scan.) -/
+theorem scanGo_eq_scan (u : Array Int) : ∀ (c : List Int) (n : Nat) (ul : Int), n ≤ 1 →
+    scanGo u c n ul = scan u c n ul := by
+  intro c
+  induction c with
+  | nil => intro n ul _; cases n <;> simp [scan, scanGo]
+  | cons x xs ih =>
+    intro n ul hn
+    unfold scanGo scan
+    simp only
+    by_cases hb : bind u x.natAbs = 0
+    · simp only [hb, if_true]
+      by_cases h0 : n = 0
+      · subst h0
+        simp only [Nat.zero_ne_one, false_and, if_false, if_true]
+        exact ih 1 x (Nat.le_refl 1)
+      · have h1 : n = 1 := by omega
+        subst h1
+        by_cases he : x = ul
+        · simp only [he, and_self, if_true, Nat.one_ne_zero, if_false]
+          exact ih 1 ul (Nat.le_refl 1)
+        · simp [he]
+    · simp only [hb, if_false]
+      by_cases hs : bind u x.natAbs * x = (x.natAbs : Int)
+      · simp [hs]
+      · simp only [hs, if_false]
+        exact ih n ul hn
+
 /-- Whenever the Go scan does not give up at a second unbound literal, `GS.scan` returns the
-    same answer; so the soundness lemmas of `GS.Check.Rup` apply to it. -/
+    same answer (from any counter value); so the soundness lemmas of `GS.Check.Rup` apply to it. -/
 theorem scanGo_scan (u : Array Int) : ∀ (c : List Int) (n : Nat) (ul : Int),
     scanGo u c n ul ≠ .many → scan u c n ul = scanGo u c n ul := by
   intro c
@@ -44,9 +78,14 @@ theorem scanGo_scan (u : Array Int) : ∀ (c : List Int) (n : Nat) (ul : Int),
     by_cases hb : bind u x.natAbs = 0
     · simp only [hb, if_true] at h ⊢
       by_cases hn : n = 0
-      · simp only [hn, if_true] at h ⊢
+      · subst hn
+        simp only [Nat.zero_ne_one, false_and, if_false, if_true] at h ⊢
         exact ih 1 x h
-      · simp [hn] at h
+      · simp only [hn, if_false] at h ⊢
+        by_cases he : n = 1 ∧ x = ul
+        · simp only [he, and_self, if_true] at h ⊢
+          exact ih 1 ul h
+        · simp [he] at h
     · simp only [hb, if_false] at h ⊢
       by_cases hs : bind u x.natAbs * x = (x.natAbs : Int)
       · simp [hs]
@@ -831,29 +870,77 @@ example : ((runAll exPb [[2], [3], []]).pb.clauses = exPb.clauses ∧
 /-! ## 9. completeness w.r.t. unit propagation (statement, witnesses) -/
 
 /-- Every certificate accepted by the verified RUP checker `GS.rupValid` is accepted by the
-    mirror, provided no clause of the problem and no line repeats a literal and no line contains
-    complementary literals.  Proved in `GS/Props/C08_Complete.lean` (`checker_complete_up`), not here (it needs confluence of unit propagation between the
-    two scan orders / start bindings, on top of `propagate_fuel_suffices` below); it was tested on
-    4000 random (problem, certificate) pairs without counterexample. -/
+    mirror, provided no line contains complementary literals (`complete_needs_no_compl`).
+    Clauses of the problem and lines may repeat literals: since the repair of the literal scan of
+    `(*Problem).unsat` (`if unbound == 1 && lit == unit { continue }`) the Go scan is `GS.scan`
+    (`scanGo_eq_scan`), which tolerates a repetition of the unbound literal of a unit clause.
+    Proved in `GS/Props/C08_Complete.lean` (`checker_complete_up`), not here (it needs confluence
+    of unit propagation between the two scan orders / start bindings, on top of
+    `propagate_fuel_suffices` below). -/
 def checker_complete_up_statement : Prop :=
+  ∀ (n : Nat) (cs lines : List (List Int)), cnfWf n cs = true → cnfWf n lines = true →
+    (∀ c ∈ lines, ∀ l ∈ c, -l ∉ c) →
+    rupValid n cs lines = true → checkAll (mkPb n cs) lines = true
+
+/-- The statement as it had to be before the repair: additionally no clause of the problem and
+    no line repeats a literal (`checker_complete_up_nodup` in `GS/Props/C08_Complete.lean`). -/
+def checker_complete_up_nodup_statement : Prop :=
   ∀ (n : Nat) (cs lines : List (List Int)), cnfWf n cs = true → cnfWf n lines = true →
     (∀ c ∈ cs, c.Nodup) → (∀ c ∈ lines, c.Nodup) → (∀ c ∈ lines, ∀ l ∈ c, -l ∉ c) →
     rupValid n cs lines = true → checkAll (mkPb n cs) lines = true
 
-/-- Witness that "no clause repeats a literal" is needed: `(1∨1)(¬1∨2)(¬1∨¬2)` is refuted by
-    unit propagation (and `GS.rupLine` says so) but the Go scan counts the repeated literal of
-    `1 1` as two unbound literals, never propagates it, and rejects the empty clause. -/
-theorem complete_needs_no_repeat :
+/-- The former witness `complete_needs_no_repeat` ("no clause repeats a literal" was needed):
+    `(1∨1)(¬1∨2)(¬1∨¬2)` is refuted by unit propagation; the scan before the repair counted the
+    repeated literal of `1 1` as two unbound literals, never propagated it and rejected the
+    empty clause.  The repaired scan skips the repetition: the certificate is accepted. -/
+theorem repeat_now_accepted :
     rupLine 2 [[1, 1], [-1, 2], [-1, -2]] [] = true ∧
-    checkAll (mkPb 2 [[1, 1], [-1, 2], [-1, -2]]) [[]] = false ∧
+    checkAll (mkPb 2 [[1, 1], [-1, 2], [-1, -2]]) [[]] = true ∧
     checkAll (mkPb 2 [[1], [-1, 2], [-1, -2]]) [[]] = true := by decide
 
-/-- Witness for "no repeated literal in a line": the accepted line `1 1` is appended as is and
-    is useless afterwards. -/
-theorem complete_needs_no_repeat_line :
+/-- The former witness `complete_needs_no_repeat_line` ("no line repeats a literal"): the
+    accepted line `1 1` is appended as is; it is now a usable unit clause. -/
+theorem repeat_line_now_accepted :
     rupValid 2 [[1, 2], [1, -2], [-1, 2], [-1, -2]] [[1, 1], []] = true ∧
-    checkAll (mkPb 2 [[1, 2], [1, -2], [-1, 2], [-1, -2]]) [[1, 1], []] = false ∧
+    checkAll (mkPb 2 [[1, 2], [1, -2], [-1, 2], [-1, -2]]) [[1, 1], []] = true ∧
     checkAll (mkPb 2 [[1, 2], [1, -2], [-1, 2], [-1, -2]]) [[1], []] = true := by decide
+
+/-- The input of the defect report: the refutation needs `1 2 1` to become unit once `2` is
+    false (`units` binds 2 from the unit clause `¬2`; 1 is unbound, 2 false, 1 again).  Both
+    entry points accept the certificate `⊥` and every clause is tagged (`UnsatSubset` returns the
+    whole problem); before the repair both answered "not UNSAT". -/
+theorem repeat_unit_now_accepted :
+    rupValid 3 [[1, 2, 1], [-2], [-1, 3], [-1, -3]] [[]] = true ∧
+    checkAll (mkPb 3 [[1, 2, 1], [-2], [-1, 3], [-1, -3]]) [[]] = true ∧
+    checkChan (mkPb 3 [[1, 2, 1], [-2], [-1, 3], [-1, -3]]) [[]] = true ∧
+    (runChan (mkPb 3 [[1, 2, 1], [-2], [-1, 3], [-1, -3]]) [[]]).pb.tagged = [true, true, true, true] := by
+  decide
+
+/-- The same defect through `UnsatSubset` (validated on the Go side): all 8 sign patterns over 3
+    variables, each clause repeating its first literal at the end; the certificate is the one the
+    solver emits (`3 1`, `1`, `-3 -1`, `⊥`).  Before the repair `UnsatChan` rejected the line `1`
+    (tags `10100000`) and `UnsatSubset` answered "problem is not UNSAT"; now the certificate is
+    accepted and all clauses are tagged. -/
+theorem repeat_subset_now_accepted :
+    let cs : List (List Int) := [[1, 2, 3, 1], [2, 1, -3, 2], [3, 1, -2, 3], [-2, 1, -3, -2],
+      [-1, 2, 3, -1], [2, -1, -3, 2], [-2, -1, 3, -2], [-3, -1, -2, -3]]
+    let lines : List (List Int) := [[3, 1], [1], [-3, -1], []]
+    rupValid 3 cs lines = true ∧ checkAll (mkPb 3 cs) lines = true ∧
+    checkChan (mkPb 3 cs) lines = true ∧
+    (runChan (mkPb 3 cs) lines).pb.tagged = [true, true, true, true, true, true, true, true] := by
+  decide
+
+/-- Only a repetition of the *first* unbound literal is skipped, and only while it is the only
+    one: with 1 and 2 unbound the scan of `1 2 1` (and of `1 2 1 2`, `1 1 2`) stops at `2` as
+    before — rightly, such a clause is not unit — and so does `GS.scan`.  Once 2 is false,
+    `1 2 1 2` and `1 1 2` are units (`1`), `1 1` alone is a unit, and with 1 false `1 1` is a conflict. -/
+theorem scan_repeat_cases :
+    scanGo #[0, 0] [1, 2, 1] 0 0 = .many ∧ scanGo #[0, 0] [1, 2, 1, 2] 0 0 = .many ∧
+    scanGo #[0, 0] [1, 1, 2] 0 0 = .many ∧
+    scanGo #[0, -1] [1, 2, 1, 2] 0 0 = .unit 1 ∧ scanGo #[0, -1] [1, 1, 2] 0 0 = .unit 1 ∧
+    scanGo #[0, -1] [2, 1, 2, 1] 0 0 = .unit 1 ∧
+    scanGo #[0, 0] [1, 1] 0 0 = .unit 1 ∧ scanGo #[-1, 0] [1, 1] 0 0 = .conflict ∧
+    scanGo #[0, 0] [1, -1] 0 0 = .many := by decide
 
 /-- Witness for "no complementary literals in a line": the tautology `1 ¬1` is a consequence of
     anything; the Go code binds variable 1 twice (last literal wins) and then usually finds no
@@ -906,11 +993,18 @@ theorem scanGo_unit_mem (u : Array Int) : ∀ (c : List Int) (n : Nat) (ul l : I
     by_cases hb : bind u x.natAbs = 0
     · simp only [hb, if_true] at h
       by_cases hn : n = 0
-      · simp only [hn, if_true] at h
+      · subst hn
+        simp only [Nat.zero_ne_one, false_and, if_false, if_true] at h
         rcases ih 1 x l h with ⟨_, h2⟩ | ⟨h1, h2⟩
         · right; rw [h2]; exact ⟨by simp, hb⟩
         · right; exact ⟨by simp [h1], h2⟩
-      · simp [hn] at h
+      · simp only [hn, if_false] at h
+        by_cases he : n = 1 ∧ x = ul
+        · simp only [he, and_self, if_true] at h
+          rcases ih 1 ul l h with h' | ⟨h1, h2⟩
+          · exact Or.inl ⟨hn, h'.2⟩
+          · right; exact ⟨by simp [h1], h2⟩
+        · simp [he] at h
     · simp only [hb, if_false] at h
       by_cases hs : bind u x.natAbs * x = (x.natAbs : Int)
       · simp [hs] at h
